@@ -1881,6 +1881,14 @@ func c05Wrappers(c *Ctx, R string, refusalOnly bool) {
 				}
 			}
 			return out
+		}, Returned: func(v ssa.Value, e *c05Env) bool {
+			// `return inner.Push(...)`: the verdict of the inner push itself
+			call, isCall := strip(v).(*ssa.Call)
+			if !isCall {
+				return false
+			}
+			_, is := isInner(call, e)
+			return is
 		}}
 		okE, bad := true, ""
 		ne := 0
@@ -1900,6 +1908,18 @@ func c05Wrappers(c *Ctx, R string, refusalOnly bool) {
 						break
 					}
 					if lv.Call == nil {
+						// a later step of a step table runs only after every earlier step returned nil
+						if t, k := c05StepIndex(lv); t != nil {
+							for j := 0; j < k; j++ {
+								if g := c05StepFn(t.Steps[j]); g != nil && c05SuccessPasses(&c05Env{Fn: g, Parent: lv.Parent}, spec) {
+									dominated = true
+								}
+							}
+							if !dominated {
+								tgt = t.Call
+								continue
+							}
+						}
 						break
 					}
 					tgt = lv.Call.(ssa.Instruction)
@@ -2185,6 +2205,19 @@ func c05AddProvenance(c *Ctx, R string) {
 								rs := Roots(cl.Common().Args[0])
 								if len(rs) == 1 && rs[0] == ssa.Value(wc) && MustPass(k, newCut().Edges(c05NilEdgesOf(cl)...)) {
 									closed = true
+								}
+							}
+							// ... or as a step of a step table (`for _, flush := range []func() error{gzw.Close, gz.Sync}`)
+							for _, t := range c05StepTables(f) {
+								for _, sv := range t.Steps {
+									for _, nm := range []string{"(*compress/gzip.Writer).Close", "(*compress/gzip.Writer).Flush"} {
+										if recv := c05StepBoundMethod(sv, nm); recv != nil {
+											rs := Roots(recv)
+											if len(rs) == 1 && rs[0] == ssa.Value(wc) && MustPass(k, newCut().Edges(t.Done...)) {
+												closed = true
+											}
+										}
+									}
 								}
 							}
 							if !closed {
@@ -2758,20 +2791,23 @@ func c05R4(c *Ctx) {
 		// when the file is handed in — by every caller.  Without a Close a late write error (ENOSPC at close on NFS …) is
 		// never seen and the content is published as complete.
 		isClose := func(n string) bool { return strings.HasSuffix(n, ").Close") }
-		hasClose := func(g *ssa.Function) bool {
+		var hasCloseD func(g *ssa.Function, d int) bool
+		hasCloseD = func(g *ssa.Function, d int) bool {
 			for _, x := range append([]*ssa.Function{g}, Anons(g)...) {
 				if len(Calls(x, isClose)) > 0 {
 					return true
 				}
 				for _, dc := range Calls(x, func(string) bool { return true }) {
-					// a helper that receives the file (possibly as an io.Closer) and closes it: closeAndKeep(fp, &err)
-					if h := StaticCallee(dc); h != nil && inModule(h) && h != g && len(h.Blocks) > 0 && len(Calls(h, isClose)) > 0 {
+					// a helper that receives the file (possibly as an io.Closer) and closes it: closeAndKeep(fp, &err),
+					// finishIngest(fp, &path, &err) -> closeInto(&err, fp)
+					if h := StaticCallee(dc); h != nil && inModule(h) && h != g && len(h.Blocks) > 0 && d < 2 && hasCloseD(h, d+1) {
 						return true
 					}
 				}
 			}
 			return false
 		}
+		hasClose := func(g *ssa.Function) bool { return hasCloseD(g, 0) }
 		for _, cb := range c05CopyCalls(f) {
 			if cb.Dst == nil || !strings.HasSuffix(strip(cb.Dst).Type().String(), "os.File") || CalleeName(cb.Call) != c05CopyBuf {
 				continue // a helper summarised as a verified copy is judged where the copy itself is
